@@ -664,7 +664,7 @@ pub fn run(ctx: &Ctx, rep: &mut Report) {
         });
     }
     rep.exhaustive.push("all 2^18 syntax-flag words; all 2^13 separator-flag words x {separator set, unset}; all 256 values of each punctuation / radix field (radix 10 and 16 contexts); all triples of punctuation from a 12-byte set".into());
-    run_prop(rep, ctx, "generated:joint-states", ctx.n(400_000, 40_000_000), packed_strategy, |p| json!({"packed": format!("{p:#034x}")}), |p, l| check_packed(*p, l));
+    run_prop(rep, ctx, "generated:joint-states", ctx.n(400_000, 20_000_000), packed_strategy, |p| json!({"packed": format!("{p:#034x}")}), |p, l| check_packed(*p, l));
     // (b) + (c)
     let inputs: Vec<Vec<u8>> = {
         let strat = prop_oneof![
